@@ -14,7 +14,7 @@ func init() {
 	register(&Property{
 		ID:        "C44",
 		Title:     "Each workload interface carries exactly the state of its preferred endpoint",
-		Technique: "static analysis: sibling cross-check of per-interface clean-up operations (Engler-style), checked/used-key agreement, lexicographic-comparator shape, cut-set guards (go/ssa over felix/dataplane/linux)",
+		Technique: "static analysis: record/table pairing of diff-programmed chains (structurally derived gates, post-dominance), sibling cross-check of per-interface clean-up operations (Engler-style), checked/used-key agreement, lexicographic-comparator shape, cut-set guards (go/ssa over felix/dataplane/linux)",
 		DesignRef: "DESIGN.md §3 C44",
 		Explanation: "Decides structural clauses of the property on endpointManager: (total) wlIdsAscending is a lexicographic strict order over every field of WorkloadEndpointID; " +
 			"(prefer) every decision between two endpoints claiming one interface name (who is shadowed, which shadowed endpoint is promoted) is taken by wlIdsAscending with the ascending-first id winning, a promoted endpoint leaves the shadow map and a displaced active endpoint is passed to the removal function; " +
@@ -22,7 +22,7 @@ func init() {
 			"(haskey) wherever a map field of endpointManager is tested for a key and then deleted from / stored to under that test, the tested key and the used key are the same; " +
 			"(index) every store into activeWlEndpoints is paired with the store of the reverse index activeWlIfaceNameToID[workload.Name]=id; " +
 			"(adminup) routes are programmed (SetRoutes with non-nil targets) only under State==\"active\" of the same workload whose name keys the call, and the same flag is what the chain renderer receives.",
-		NotDecided: "Contents of the maps after a given history (e.g. that chains removed really are the old endpoint's); the guards under which the sibling clean-up operations run (bpfEnabled) are not compared; operations taking the whole workload object (callbacks, QoS) are compared only if they carry a name-keyed operation missing on the other side; route contents.",
+		NotDecided: "Contents of the maps after a given history (e.g. that chains removed really are the old endpoint's); the guards under which the sibling clean-up operations run (bpfEnabled) are not compared; operations taking the whole workload object (callbacks, QoS) are compared only if they carry a name-keyed operation missing on the other side; route contents; for chainrecord: that the record maps start out equal to the table (empty/empty), that the key under which a fresh record map entry is removed from the old record matches (generation-swap shape), and record maps that are not used as a diff gate (activeWlIDToChains).",
 		Assumptions: []string{
 			"go/types + go/ssa (x/tools v0.50.0) model of the current source, CGO_ENABLED=0 build",
 			"Go map semantics; logrus/fmt calls have no dataplane effect",
@@ -56,6 +56,18 @@ func init() {
 				Old: "\t\t\t\tm.activeWlEndpoints[id] = workload\n\t\t\t\tm.activeWlIfaceNameToID[workload.Name] = id\n", New: "\t\t\t\tm.activeWlEndpoints[id] = workload\n", Expect: "C44.index/"},
 			{Name: "routes programmed for an endpoint that is not up", File: "felix/dataplane/linux/endpoint_mgr.go",
 				Old: "\t\t\t\tif adminUp {\n\t\t\t\t\tm.routeTable.SetRoutes(workload.Name, m.calculateRoutes(logCxt, id, workload))\n\t\t\t\t} else {", New: "\t\t\t\tif adminUp || len(workload.Ipv4Nets) > 0 {\n\t\t\t\t\tm.routeTable.SetRoutes(workload.Name, m.calculateRoutes(logCxt, id, workload))\n\t\t\t\t} else {", Expect: "C44.adminup/SetRoutes"},
+			{Name: "removed dispatch chain stays in the record of programmed chains", File: "felix/dataplane/linux/endpoint_mgr.go",
+				Old: "\t\t\ttable.RemoveChainByName(name)\n\t\t\tdelete(activeChains, name)\n", New: "\t\t\ttable.RemoveChainByName(name)\n",
+				Expect: "C44.chainrecord/remove/endpointManager.updateDispatchChains/activeChains"},
+			{Name: "updated dispatch chain not recorded (never removed when it disappears)", File: "felix/dataplane/linux/endpoint_mgr.go",
+				Old: "\t\t\ttable.UpdateChain(newChain)\n\t\t\tactiveChains[newChain.Name] = newChain\n", New: "\t\t\ttable.UpdateChain(newChain)\n",
+				Expect: "C44.chainrecord/store/endpointManager.updateDispatchChains/activeChains"},
+			{Name: "host interface filter chains not carried into the next record", File: "felix/dataplane/linux/endpoint_mgr.go",
+				Old: "\t\t\tnewHostIfaceFiltChains[ifaceName] = filtChains\n", New: "",
+				Expect: "C44.chainrecord/store/endpointManager.updateHostEndpoints/activeHostIfaceToFiltChains"},
+			{Name: "removed untracked host chains stay in the record (record never replaced)", File: "felix/dataplane/linux/endpoint_mgr.go",
+				Old: "\tm.activeHostIfaceToRawChains = newHostIfaceRawChains\n", New: "",
+				Expect: "C44.chainrecord/remove/endpointManager.updateHostEndpoints/activeHostIfaceToRawChains"},
 		},
 	})
 	dplinuxFixtureFilter(registry["C44"])
@@ -113,12 +125,15 @@ func runC44(c *Ctx) {
 	c.Rule("C44.index", "E-PAIR", "every store activeWlEndpoints[id]=w is paired on every path with activeWlIfaceNameToID[w.Name]=id", 1)
 	c.Rule("C44.adminup", "E-GUARD/E-FLOW", "routeTable.SetRoutes with non-nil targets only under State==\"active\" of the workload whose Name keys the call; the adminUp argument of the chain update is that same test", 5)
 
+	c.Rule("C44.chainrecord", "E-PAIR", "diff-programmed chains (UpdateChain(s) gated on a comparison with record[k]): the programmed chains become record[k] (in place, or via the map that replaces the record field), and every RemoveChains/RemoveChainByName in such a function is paired with the delete of that record entry or the wholesale replacement of the record", 10)
+
 	x.total()
 	x.prefer()
 	x.cleanup()
 	x.haskey()
 	x.index()
 	x.adminup()
+	x.chainrecord()
 }
 
 // ------------------------------------------------------------------ helpers --
